@@ -535,6 +535,10 @@ func TestC17(t *testing.T) {
 			if tg == "concurrent-cancel" || tg == "held-loop" {
 				kind = "proxy-loose" // faults and cancellation in one step: judged by the predicates alone
 			}
+			if tg == "serve-loop-held=true" {
+				kind = "proxy-held" // a slow callback: compared with the held-loop model (Model/ProxyHeld.v)
+				break
+			}
 		}
 		jobs = append(jobs, func(idx int, em *Emitter) { runPxScenario(t, idx, kind, sc, em) })
 	}
